@@ -30,6 +30,16 @@ def run(tier):
     if not sem:
         c17.order(res, facts, entries, "C13.R4")
     persistence(res, facts, entries)
+    # R6: the build-time rules sit in PasetoBuilder; the GenericBuilder it wraps (whose try_encrypt / try_sign / remove_claim know nothing of
+    # them) is not reachable through the wrapper
+    from .. import layers
+    for f in layers.encapsulation(facts, "C13.R6", "PasetoBuilder", "GenericBuilder"):
+        res.oblige(f.ok)
+        if f.ok:
+            res.inst(f.rule, f.desc)
+        else:
+            res.violate(f.rule, f.where, f.construct, f.msg, file=f.file, line=f.line)
+    res.floor("C13.R6", 2)
     res.floor("C13.R1", 4)
     res.floor("C13.R2", 4 + 1)
     res.floor("C13.R3", 2)
